@@ -1,6 +1,6 @@
 #!/bin/sh
 # tools/all_seeds.sh : run every seeded change against the check of its own property (detection matrix)
-cd /verif
+cd "$(dirname "$0")/.."
 for d in seeded/C*; do
   s=$(basename "$d"); p=${s%-*}
   r=$(tools/try_seed.sh "$s" "$p" 2>&1 | grep -E "VIOLATION|-> (ok|FAIL)|INTERNAL|REPO NOT CLEAN" | grep -v KNOWN | tr '\n' ' ' | cut -c1-160)
